@@ -343,12 +343,6 @@ impl PossibleCycles {
     }
 
     #[inline]
-    #[cfg(any(
-        feature = "pedantic-debug-assertions",
-        feature = "finalization",
-        feature = "verif-hooks",
-        all(test, feature = "std") // Unit tests
-    ))]
     pub(crate) fn iter(&self) -> Iter {
         self.into_iter()
     }
